@@ -29,6 +29,17 @@ struct Case {
     nontrivial_key: String,
 }
 
+fn must_reject(sr: &StepResult, what: &str, case: usize, summary: &mut Summary, desc: &str) {
+    if sr.add != Some(AddClass::Invalid) {
+        summary.oracle_failure(case, &format!("{} is not rejected: {:?} {}", what, sr.add, sr.panic_msg.clone().unwrap_or_default()), desc);
+    }
+}
+fn must_accept(sr: &StepResult, what: &str, case: usize, summary: &mut Summary, desc: &str) {
+    if sr.add != Some(AddClass::OnChain) {
+        summary.oracle_failure(case, &format!("{} is not accepted: {:?} {}", what, sr.add, sr.panic_msg.clone().unwrap_or_default()), desc);
+    }
+}
+
 /// oracles after a step; returns false when the history cannot go on
 fn c02_oracle(sim: &mut Sim, sr: &StepResult, case: usize, summary: &mut Summary, desc: &str, expected_finding: Option<&str>) -> bool {
     let mut alarm = |summary: &mut Summary, what: String| match expected_finding {
@@ -105,6 +116,7 @@ async fn random_history(hrng: &mut Rng, gpar: &GenParams, big: bool, case: usize
             None
         };
         let (mult, _fpb) = sim.atr_params();
+        let leaving_max = sim.leaving_max_amount();
         let (co, sr) = sim.honest_step(ts, gt, &txs).await;
         match co {
             CreateOutcome::Ok => {}
@@ -113,22 +125,16 @@ async fn random_history(hrng: &mut Rng, gpar: &GenParams, big: bool, case: usize
                 break;
             }
             CreateOutcome::Panic(p) => {
-                // with a payout multiplier > 1 the chain is dead anyway (C13 finding payout-multiplier-halts-chain);
-                // amount * multiplier may then also overflow u64 in the producer (debug profile)
                 summary.count("producer_panicked", &format!("multiplier{}1:{}", if mult > 1 { ">" } else { "=" }, p));
-                if mult <= 1 {
-                    summary.oracle_failure(case, &format!("Block::create panicked on valid input: {}", p), &desc);
-                }
+                let _ = leaving_max;
+                summary.oracle_failure(case, &format!("Block::create panicked on valid input (payout multiplier {}): {}", mult, p), &desc);
                 break;
             }
             CreateOutcome::NotCalled => {}
         }
         if sr.add == Some(AddClass::Invalid) {
-            // the producer's own block is refused: rebroadcast with a payout multiplier > 1 (property C13's finding)
             summary.count("honest_block_rejected", &format!("multiplier={}", mult));
-            if mult <= 1 {
-                summary.oracle_failure(case, &format!("block {} built by the real producer was rejected", sim.tip().id + 1), &desc);
-            }
+            summary.oracle_failure(case, &format!("block {} built by the real producer was rejected (payout multiplier {})", sim.tip().id + 1, mult), &desc);
             break;
         }
         if !c02_oracle(&mut sim, &sr, case, summary, &desc, None) {
@@ -409,7 +415,8 @@ async fn scripted(name: &str, case: usize, summary: &mut Summary) -> (Sim, Strin
             reseal(&mut edited, &sim.keys[0].1);
             summary.count("scripted", &format!("{}:fee-tx-paid-{}", name, if paid > 0 { "positive" } else { "zero" }));
             let sr = sim.step(ts, Some(gt), &[], CreateOutcome::Ok, Some(created), Some(edited)).await;
-            c02_oracle(&mut sim, &sr, case, summary, &desc, Some("fee-transaction-omitted"));
+            must_reject(&sr, "a golden-ticket block without its fee transaction (fixed by 60ba6d1)", case, summary, &desc);
+            c02_oracle(&mut sim, &sr, case, summary, &desc, None);
         }
         // an NFT (Bound) transaction that pays a fee
         "bound-tx-fee" => {
@@ -421,7 +428,8 @@ async fn scripted(name: &str, case: usize, summary: &mut Summary) -> (Sim, Strin
             let s = sim.spendable().into_iter().find(|s| s.public_key == sim.keys[1].0 && s.amount == 333_000).unwrap();
             let tx = nft_create(&sim, &s, 300_000, 30_000, ts); // fee 3000
             let (_co, sr) = sim.honest_step(ts, None, &[tx]).await;
-            c02_oracle(&mut sim, &sr, case, summary, &desc, Some("bound-transaction-fee-uncounted"));
+            must_accept(&sr, "a block with an NFT-creating transaction that pays a fee", case, summary, &desc);
+            c02_oracle(&mut sim, &sr, case, summary, &desc, None);
         }
         // a BlockStake-typed transaction without inputs creating outputs: must be rejected
         // (accepted before fix 4119a69; with 2 x 2^63 the release build minted 2^64 unnoticed)
@@ -461,7 +469,8 @@ async fn scripted(name: &str, case: usize, summary: &mut Summary) -> (Sim, Strin
                 ts,
             ); // fee 2000
             let (_co, sr) = sim.honest_step(ts, None, &[tx]).await;
-            c02_oracle(&mut sim, &sr, case, summary, &desc, Some("blockstake-transaction-fee-uncounted"));
+            must_accept(&sr, "a block with a signed BlockStake transaction that pays a fee", case, summary, &desc);
+            c02_oracle(&mut sim, &sr, case, summary, &desc, None);
         }
         // a golden ticket naming the all-zero key
         "zero-key-golden-ticket" => {
@@ -475,7 +484,8 @@ async fn scripted(name: &str, case: usize, summary: &mut Summary) -> (Sim, Strin
             let s = sim.spendable().into_iter().find(|s| s.public_key == sim.keys[0].0 && s.amount > 100_000).unwrap();
             let tx = make_tx(&[s.clone()], &[(sim.keys[0].0, s.amount - 50_000)], &sim.keys[0].1, ts);
             let (_co, sr) = sim.honest_step(ts, Some(gt), &[tx]).await;
-            c02_oracle(&mut sim, &sr, case, summary, &desc, Some("zero-key-golden-ticket"));
+            must_reject(&sr, "a block whose golden ticket names the all-zero key (fixed by b8552b5)", case, summary, &desc);
+            c02_oracle(&mut sim, &sr, case, summary, &desc, None);
         }
         // an NFT group leaving the window while the rebroadcast fee is positive
         "nft-rebroadcast" => {
@@ -491,8 +501,8 @@ async fn scripted(name: &str, case: usize, summary: &mut Summary) -> (Sim, Strin
             let (_co, sr) = sim.honest_step(ts, Some(gt), &[tx]).await;
             let mut alive = c02_oracle(&mut sim, &sr, case, summary, &desc, None);
             let mut k = 0;
-            while alive && k < 6 {
-                alive = scripted_more(&mut sim, k).await.map(|sr| c02_oracle(&mut sim, &sr, case, summary, &desc, Some("nft-rebroadcast-fee-not-deducted"))).unwrap_or(false);
+            while alive && k < 10 {
+                alive = scripted_more(&mut sim, k).await.map(|sr| c02_oracle(&mut sim, &sr, case, summary, &desc, None)).unwrap_or(false);
                 k += 1;
             }
         }
@@ -510,7 +520,8 @@ async fn scripted(name: &str, case: usize, summary: &mut Summary) -> (Sim, Strin
                 let owner = sim.key_index(&s.public_key).unwrap();
                 let tx = make_tx(&[s.clone()], &[(s.public_key, s.amount)], &sim.keys[owner].1, ts);
                 let (_co, sr) = sim.honest_step(ts, None, &[tx]).await;
-                c02_oracle(&mut sim, &sr, case, summary, &desc, Some("collected-output-stays-spendable"));
+                must_reject(&sr, "a block spending an output that was collected as fees two blocks earlier (fixed by bb88717)", case, summary, &desc);
+                c02_oracle(&mut sim, &sr, case, summary, &desc, None);
             }
         }
         // every consensus field of the header, one at a time, off by one in an otherwise honest block:
@@ -518,8 +529,12 @@ async fn scripted(name: &str, case: usize, summary: &mut Summary) -> (Sim, Strin
         "header-tampered" => {
             let iss: &[(usize, u64)] = &[(0, 3_000_000), (0, 500_000), (1, 700), (1, 90_000), (2, 5), (1, 333_000), (3, 44_000), (2, 250_000)];
             sim = Sim::new(3, 8, 4, iss, 1_000_000).await;
-            const FIELDS: usize = 25;
-            for f in 0..FIELDS {
+            // 0..24: +1 on field f; 25: previous_block_unpaid + 1 (an odd round: the block has no golden
+            // ticket, the check is `!= previous_block.total_fees`); 26..51: the same fields, -1
+            const FIELDS: usize = 52;
+            for round in 0..FIELDS {
+                let f = if round == 25 { 2 } else if round >= 26 { round - 26 } else { round };
+                let minus = round >= 26;
                 let ts = sim.tip().timestamp + 2 * HEARTBEAT + 1000;
                 let mut sp: Vec<_> = sim.spendable().into_iter().filter(|s| s.public_key == sim.keys[0].0 && s.slip_type == SlipType::Normal).collect();
                 sp.sort_by_key(|s| s.amount);
@@ -544,39 +559,42 @@ async fn scripted(name: &str, case: usize, summary: &mut Summary) -> (Sim, Strin
                     }
                 };
                 let mut e = created.clone();
+                let bump = |x: u64, minus: bool| if minus { x.wrapping_sub(1) } else { x.wrapping_add(1) };
                 let name_f = match f {
-                    0 => { e.treasury += 1; "treasury" }
-                    1 => { e.graveyard += 1; "graveyard" }
-                    2 => { e.previous_block_unpaid += 1; "previous_block_unpaid" }
-                    3 => { e.total_fees += 1; "total_fees" }
-                    4 => { e.total_fees_new += 1; "total_fees_new" }
-                    5 => { e.total_fees_atr += 1; "total_fees_atr" }
-                    6 => { e.total_fees_cumulative += 1; "total_fees_cumulative" }
-                    7 => { e.avg_total_fees += 1; "avg_total_fees" }
-                    8 => { e.avg_total_fees_new += 1; "avg_total_fees_new" }
-                    9 => { e.avg_total_fees_atr += 1; "avg_total_fees_atr" }
-                    10 => { e.total_payout_routing += 1; "total_payout_routing" }
-                    11 => { e.total_payout_mining += 1; "total_payout_mining" }
-                    12 => { e.total_payout_treasury += 1; "total_payout_treasury" }
-                    13 => { e.total_payout_graveyard += 1; "total_payout_graveyard" }
-                    14 => { e.total_payout_atr += 1; "total_payout_atr" }
-                    15 => { e.avg_payout_routing += 1; "avg_payout_routing" }
-                    16 => { e.avg_payout_mining += 1; "avg_payout_mining" }
-                    17 => { e.avg_payout_treasury += 1; "avg_payout_treasury" }
-                    18 => { e.avg_payout_graveyard += 1; "avg_payout_graveyard" }
-                    19 => { e.avg_payout_atr += 1; "avg_payout_atr" }
-                    20 => { e.avg_fee_per_byte += 1; "avg_fee_per_byte" }
-                    21 => { e.fee_per_byte += 1; "fee_per_byte" }
-                    22 => { e.avg_nolan_rebroadcast_per_block += 1; "avg_nolan_rebroadcast_per_block" }
-                    23 => { e.burnfee += 1; "burnfee" }
-                    _ => { e.difficulty += 1; "difficulty" }
+                    0 => { e.treasury = bump(e.treasury, minus); "treasury" }
+                    1 => { e.graveyard = bump(e.graveyard, minus); "graveyard" }
+                    2 => { e.previous_block_unpaid = bump(e.previous_block_unpaid, minus); "previous_block_unpaid" }
+                    3 => { e.total_fees = bump(e.total_fees, minus); "total_fees" }
+                    4 => { e.total_fees_new = bump(e.total_fees_new, minus); "total_fees_new" }
+                    5 => { e.total_fees_atr = bump(e.total_fees_atr, minus); "total_fees_atr" }
+                    6 => { e.total_fees_cumulative = bump(e.total_fees_cumulative, minus); "total_fees_cumulative" }
+                    7 => { e.avg_total_fees = bump(e.avg_total_fees, minus); "avg_total_fees" }
+                    8 => { e.avg_total_fees_new = bump(e.avg_total_fees_new, minus); "avg_total_fees_new" }
+                    9 => { e.avg_total_fees_atr = bump(e.avg_total_fees_atr, minus); "avg_total_fees_atr" }
+                    10 => { e.total_payout_routing = bump(e.total_payout_routing, minus); "total_payout_routing" }
+                    11 => { e.total_payout_mining = bump(e.total_payout_mining, minus); "total_payout_mining" }
+                    12 => { e.total_payout_treasury = bump(e.total_payout_treasury, minus); "total_payout_treasury" }
+                    13 => { e.total_payout_graveyard = bump(e.total_payout_graveyard, minus); "total_payout_graveyard" }
+                    14 => { e.total_payout_atr = bump(e.total_payout_atr, minus); "total_payout_atr" }
+                    15 => { e.avg_payout_routing = bump(e.avg_payout_routing, minus); "avg_payout_routing" }
+                    16 => { e.avg_payout_mining = bump(e.avg_payout_mining, minus); "avg_payout_mining" }
+                    17 => { e.avg_payout_treasury = bump(e.avg_payout_treasury, minus); "avg_payout_treasury" }
+                    18 => { e.avg_payout_graveyard = bump(e.avg_payout_graveyard, minus); "avg_payout_graveyard" }
+                    19 => { e.avg_payout_atr = bump(e.avg_payout_atr, minus); "avg_payout_atr" }
+                    20 => { e.avg_fee_per_byte = bump(e.avg_fee_per_byte, minus); "avg_fee_per_byte" }
+                    21 => { e.fee_per_byte = bump(e.fee_per_byte, minus); "fee_per_byte" }
+                    22 => { e.avg_nolan_rebroadcast_per_block = bump(e.avg_nolan_rebroadcast_per_block, minus); "avg_nolan_rebroadcast_per_block" }
+                    23 => { e.burnfee = bump(e.burnfee, minus); "burnfee" }
+                    24 => { e.difficulty = bump(e.difficulty, minus); "difficulty" }
+                    _ => { e.previous_block_unpaid = bump(e.previous_block_unpaid, minus); "previous_block_unpaid" }
                 };
+                let name_f = format!("{}{}{}", name_f, if minus { "-1" } else { "+1" }, if gt.is_some() { "" } else { ":no-golden-ticket" });
                 resign(&mut e, &sim.keys[0].1);
                 let sr = sim.step(ts, gt.clone(), &txs, CreateOutcome::Ok, Some(created.clone()), Some(e)).await;
                 if sr.add != Some(AddClass::Invalid) {
                     summary.oracle_failure(
                         case,
-                        &format!("block {} with header field {} off by one is not rejected: {:?} {}", created.id, name_f, sr.add, sr.panic_msg.clone().unwrap_or_default()),
+                        &format!("block {} with header field {} is not rejected: {:?} {}", created.id, name_f, sr.add, sr.panic_msg.clone().unwrap_or_default()),
                         &desc,
                     );
                     c02_oracle(&mut sim, &sr, case, summary, &desc, None);
@@ -621,6 +639,376 @@ async fn scripted(name: &str, case: usize, summary: &mut Summary) -> (Sim, Strin
                 summary.oracle_failure(case, &format!("block spending output 1:{}:0 (90_000) AND rebroadcasting it is not rejected: {:?} {}", s.tx_ordinal, sr.add, sr.panic_msg.clone().unwrap_or_default()), &desc);
             }
             c02_oracle(&mut sim, &sr, case, summary, &desc, None);
+        }
+        // a "new NFT" transaction with an additional Bound output (index 4) carrying a large amount:
+        // Bound amounts are not counted as value when the transaction is validated
+        "stray-bound-output" => {
+            sim = scripted_prefix_raw(3, 8, ISS, 1, 7, case, summary, &desc).await;
+            if sim.dead {
+                return (sim, desc);
+            }
+            let ts = sim.tip().timestamp + 2 * HEARTBEAT + 1000;
+            let s = sim.spendable().into_iter().find(|s| s.public_key == sim.keys[1].0 && s.amount == 333_000).unwrap();
+            let mut tx = nft_create(&sim, &s, 300_000, 33_000, ts);
+            tx.add_to_slip(slip_out(s.public_key, 1_000_000, SlipType::Bound));
+            tx.sign(&sim.keys[1].1);
+            let parent = sim.tip().clone();
+            let gt = gt_tx_for(&sim.node, &parent, sim.keys[1].0, 13).await;
+            let (_co, sr) = sim.honest_step(ts, Some(gt), &[tx]).await;
+            summary.count("scripted", &format!("{}:nft-tx-{:?}", name, sr.add.clone().map(|c| c.code())));
+            must_reject(&sr, "a block with an NFT-creating transaction that carries an extra Bound output of 1_000_000 (fixed by 5a3c1b6)", case, summary, &desc);
+            let mut alive = c02_oracle(&mut sim, &sr, case, summary, &desc, None) && sr.add == Some(AddClass::OnChain);
+            let mut k = 0;
+            while alive && k < 6 {
+                alive = scripted_more(&mut sim, k).await.map(|sr| c02_oracle(&mut sim, &sr, case, summary, &desc, None)).unwrap_or(false);
+                k += 1;
+            }
+        }
+        // an SPV-typed transaction (no signature check, inputs not looked up) names the first Bound slip
+        // of somebody's NFT group as its input: Bound amounts count as 0, so it passes; the group is torn
+        "spv-spends-bound-slip" => {
+            sim = scripted_prefix_raw(3, 8, ISS, 1, 7, case, summary, &desc).await;
+            if sim.dead {
+                return (sim, desc);
+            }
+            let ts = sim.tip().timestamp + 2 * HEARTBEAT + 1000;
+            let s = sim.spendable().into_iter().find(|s| s.public_key == sim.keys[1].0 && s.amount == 333_000).unwrap();
+            let tx = nft_create(&sim, &s, 300_000, 33_000, ts);
+            let parent = sim.tip().clone();
+            let gt = gt_tx_for(&sim.node, &parent, sim.keys[1].0, 13).await;
+            let (_co, sr) = sim.honest_step(ts, Some(gt), &[tx]).await;
+            let mut alive = c02_oracle(&mut sim, &sr, case, summary, &desc, None) && sr.add == Some(AddClass::OnChain);
+            if alive {
+                // block 4: key 3 (a stranger) "spends" the Bound slip 3:x:0 of key 2 with an SPV-typed transaction
+                let nft_block = sim.tip().clone();
+                let bound = nft_block.transactions.iter().flat_map(|t| t.to.iter()).find(|s| s.slip_type == SlipType::Bound && s.amount == 1).unwrap().clone();
+                let ts2 = sim.tip().timestamp + 2 * HEARTBEAT + 1000;
+                let spv = raw_tx(TransactionType::SPV, vec![bound.clone()], vec![slip_out(sim.keys[3].0, 0, SlipType::Normal)], &sim.keys[3].1, ts2);
+                let mut sp: Vec<_> = sim.spendable().into_iter().filter(|s| s.public_key == sim.keys[0].0).collect();
+                sp.sort_by_key(|s| s.amount);
+                let big = sp.last().unwrap().clone();
+                let pay = make_tx(&[big.clone()], &[(sim.keys[0].0, big.amount - 50_000)], &sim.keys[0].1, ts2);
+                let (_co, sr2) = sim.honest_step(ts2, None, &[pay, spv]).await;
+                let gone = !sim.node.blockchain.utxoset.contains_key(&bound.get_utxoset_key());
+                summary.count("scripted", &format!("{}:block-{:?}:bound-slip-gone-{}", name, sr2.add.clone().map(|c| c.code()), gone));
+                must_reject(&sr2, "a block with an SPV-typed transaction whose input is somebody's Bound slip (fixed by 66d7fd0)", case, summary, &desc);
+                alive = c02_oracle(&mut sim, &sr2, case, summary, &desc, None) && sr2.add == Some(AddClass::OnChain);
+                if gone {
+                    summary.oracle_failure(case, "the Bound slip named by an SPV-typed transaction was removed from the utxo set", &desc);
+                }
+            }
+            let mut k = 0;
+            while alive && k < 6 {
+                alive = scripted_more(&mut sim, k).await.map(|sr| c02_oracle(&mut sim, &sr, case, summary, &desc, None)).unwrap_or(false);
+                k += 1;
+            }
+        }
+
+        // the shared deterministic scenario in which the rebroadcast section pays out of the treasury
+        // (multiplier >= 2 without the cap, the cap with an adjusted factor >= 2, NFT groups in both,
+        // an NFT payload collected as dust): supply oracle and C13 oracle on every block
+        "atr-payout-positive" => {
+            sim = Sim::new(3, 8, 4, PAYOUT_ISS, 1_000_000).await;
+            let mut br = Branches::default();
+            for k in 0..PAYOUT_BLOCKS {
+                let ts = sim.tip().timestamp + 2 * HEARTBEAT + 1000;
+                let txs = payout_scenario_txs(&sim, k, ts);
+                let with_gt = !sim.tip().has_golden_ticket || txs.is_empty();
+                let gt = if with_gt {
+                    let parent = sim.tip().clone();
+                    Some(gt_tx_for(&sim.node, &parent, sim.keys[PAYOUT_MINER].0, 400 + k as u64).await)
+                } else {
+                    None
+                };
+                let (co, sr, rep, mult) = atr_checked_step(&mut sim, ts, gt, &txs).await;
+                let alive = c02_oracle(&mut sim, &sr, case, summary, &desc, None);
+                if co != CreateOutcome::Ok || sr.add != Some(AddClass::OnChain) {
+                    summary.oracle_failure(case, &format!("honest block {} of the scenario was not accepted: create {:?}, add {:?} (payout multiplier {})", k + 2, co, sr.add, mult), &desc);
+                    break;
+                }
+                if let Some(rep) = rep {
+                    br.note(sim.tip(), &rep, mult);
+                    for f in &rep.failures {
+                        summary.oracle_failure(case, f, &desc);
+                    }
+                }
+                if !alive {
+                    break;
+                }
+            }
+            summary.count("atr_branch:uncapped_payout_positive", &br.uncapped_positive.min(9).to_string());
+            summary.count("atr_branch:capped", &br.capped.min(9).to_string());
+            summary.count("atr_branch:capped_factor_ge_2", &br.capped_factor2.min(9).to_string());
+            summary.count("atr_branch:capped_nft", &br.capped_nft.min(9).to_string());
+            summary.count("atr_branch:uncapped_nft_payout", &br.uncapped_nft.min(9).to_string());
+            summary.count("atr_branch:nft_dust", &br.nft_dust.min(9).to_string());
+            for m in br.missing() {
+                summary.oracle_failure(case, &format!("coverage: the deterministic scenario atr-payout-positive no longer reaches the branch: {} ({:?})", m, br), &desc);
+            }
+        }
+        // edits of the fee transaction of an otherwise honest block (Transaction::validate accepts every
+        // Fee-typed transaction, Block::validate is the only barrier): duplicated, payee changed, amount + 1,
+        // an extra output, all re-signed by the block's creator; and a fee transaction in a block without a
+        // golden ticket. Each must be rejected; the honest block extends the chain afterwards.
+        "fee-tx-tampered" => {
+            sim = scripted_prefix_raw(3, 8, ISS, 2, 7, case, summary, &desc).await;
+            if sim.dead {
+                return (sim, desc);
+            }
+            let mut last_fee_tx: Option<Transaction> = None;
+            let variants = ["duplicated", "payee-changed", "amount-plus-one", "extra-output", "stray-in-block-without-golden-ticket", "amount-minus-one", "moved-to-front"];
+            let mut vi = 0;
+            let mut round = 0;
+            while vi < variants.len() && round < 24 {
+                round += 1;
+                let ts = sim.tip().timestamp + 2 * HEARTBEAT + 1000;
+                let mut sp: Vec<_> = sim.spendable().into_iter().filter(|s| s.public_key == sim.keys[0].0 && s.slip_type == SlipType::Normal).collect();
+                sp.sort_by_key(|s| s.amount);
+                let mut txs = vec![];
+                if let Some(s) = sp.last() {
+                    if s.amount > 200_000 {
+                        txs.push(make_tx(&[s.clone()], &[(sim.keys[0].0, s.amount - 50_000)], &sim.keys[0].1, ts));
+                    }
+                }
+                let with_gt = !sim.tip().has_golden_ticket || txs.is_empty();
+                let gt = if with_gt {
+                    let parent = sim.tip().clone();
+                    Some(gt_tx_for(&sim.node, &parent, sim.keys[1].0, 700 + round as u64).await)
+                } else {
+                    None
+                };
+                let created = match create_block(&sim.node, sim.tip().hash, ts, &txs, gt.clone()).await {
+                    Ok(Ok(b)) => b,
+                    other => {
+                        summary.oracle_failure(case, &format!("Block::create failed on valid input: {:?}", other.map(|r| r.map(|b| b.id))), &desc);
+                        break;
+                    }
+                };
+                let fee_pos = created.transactions.iter().position(|t| t.transaction_type == TransactionType::Fee);
+                let v = variants[vi];
+                let mut e = created.clone();
+                let mut applied = false;
+                match (v, fee_pos, &last_fee_tx) {
+                    ("stray-in-block-without-golden-ticket", None, Some(old)) => {
+                        let mut t = old.clone();
+                        t.timestamp = ts;
+                        t.sign(&sim.keys[0].1);
+                        e.transactions.push(t);
+                        applied = true;
+                    }
+                    ("stray-in-block-without-golden-ticket", _, _) => {}
+                    (_, Some(p), _) => {
+                        let paid: u64 = e.transactions[p].to.iter().map(|s| s.amount).sum();
+                        if paid > 1 {
+                            match v {
+                                "duplicated" => {
+                                    let t = e.transactions[p].clone();
+                                    e.transactions.push(t);
+                                }
+                                "payee-changed" => {
+                                    let k = e.transactions[p].to.iter().position(|s| s.amount > 0).unwrap();
+                                    e.transactions[p].to[k].public_key = sim.keys[3].0;
+                                    e.transactions[p].sign(&sim.keys[0].1);
+                                }
+                                "amount-plus-one" => {
+                                    let k = e.transactions[p].to.iter().position(|s| s.amount > 0).unwrap();
+                                    e.transactions[p].to[k].amount += 1;
+                                    e.transactions[p].sign(&sim.keys[0].1);
+                                }
+                                "amount-minus-one" => {
+                                    let k = e.transactions[p].to.iter().position(|s| s.amount > 0).unwrap();
+                                    e.transactions[p].to[k].amount -= 1;
+                                    e.transactions[p].sign(&sim.keys[0].1);
+                                }
+                                "extra-output" => {
+                                    e.transactions[p].add_to_slip(slip_out(sim.keys[3].0, 1_000_000, SlipType::Normal));
+                                    e.transactions[p].sign(&sim.keys[0].1);
+                                }
+                                _ => {
+                                    // the fee transaction carried first instead of last: the same content elsewhere is fine
+                                    // for the hash comparison only if nothing else changes; the ordinal changes, so the
+                                    // outputs sit at other utxo keys than the expected ones
+                                    let t = e.transactions.remove(p);
+                                    e.transactions.insert(0, t);
+                                }
+                            }
+                            applied = true;
+                        }
+                    }
+                    _ => {}
+                }
+                if applied {
+                    reseal(&mut e, &sim.keys[0].1);
+                    let sr = sim.step(ts, gt.clone(), &txs, CreateOutcome::Ok, Some(created.clone()), Some(e)).await;
+                    if v == "moved-to-front" {
+                        // position is not part of the property: whatever the verdict, the supply must hold
+                        summary.count("scripted", &format!("{}:{}:{:?}", name, v, sr.add.clone().map(|c| c.code())));
+                        if !c02_oracle(&mut sim, &sr, case, summary, &desc, None) {
+                            break;
+                        }
+                        vi += 1;
+                        if sr.add == Some(AddClass::OnChain) {
+                            continue;
+                        }
+                    } else {
+                        must_reject(&sr, &format!("a block whose fee transaction is edited ({})", v), case, summary, &desc);
+                        if !c02_oracle(&mut sim, &sr, case, summary, &desc, None) || sr.add == Some(AddClass::OnChain) {
+                            break;
+                        }
+                        summary.count("scripted", &format!("{}:{}", name, v));
+                        vi += 1;
+                    }
+                }
+                if let Some(p) = fee_pos {
+                    if created.transactions[p].to.iter().any(|s| s.amount > 0) {
+                        last_fee_tx = Some(created.transactions[p].clone());
+                    }
+                }
+                let sr2 = sim.step(ts, gt, &txs, CreateOutcome::NotCalled, None, Some(created)).await;
+                if !c02_oracle(&mut sim, &sr2, case, summary, &desc, None) || sr2.add != Some(AddClass::OnChain) {
+                    summary.oracle_failure(case, &format!("the honest block is not accepted after the edited one was refused: {:?}", sr2.add), &desc);
+                    break;
+                }
+            }
+            if vi < variants.len() {
+                summary.oracle_failure(case, &format!("coverage: scenario fee-tx-tampered applied only {} of {} edits", vi, variants.len()), &desc);
+            }
+        }
+        // transactions that would create value, one per block, each in an otherwise honest block built by the
+        // real producer: outputs exceed the input by 1; outputs [2^64-6, a+6] (the u64 sum wraps to a);
+        // an SPV-typed transaction with a valued output; an Issuance transaction after block 1.
+        // Each block must be rejected; an honest block extends the chain in between.
+        "minting-transactions" => {
+            sim = scripted_prefix_raw(3, 8, ISS, 2, 7, case, summary, &desc).await;
+            if sim.dead {
+                return (sim, desc);
+            }
+            for (vi, v) in ["overspend", "overspend-wrap", "spv-mint", "issuance-later", "issuance-later-with-golden-ticket"].iter().enumerate() {
+                let ts = sim.tip().timestamp + 2 * HEARTBEAT + 1000;
+                let s = match sim.spendable().into_iter().filter(|s| s.public_key == sim.keys[1].0).max_by_key(|s| s.amount) {
+                    Some(s) => s,
+                    None => {
+                        summary.oracle_failure(case, "coverage: scenario minting-transactions ran out of inputs for key 2", &desc);
+                        break;
+                    }
+                };
+                let tx = match *v {
+                    "overspend" => raw_tx(TransactionType::Normal, vec![s.clone()], vec![slip_out(s.public_key, s.amount + 1, SlipType::Normal)], &sim.keys[1].1, ts),
+                    "overspend-wrap" => raw_tx(
+                        TransactionType::Normal,
+                        vec![s.clone()],
+                        vec![slip_out(s.public_key, u64::MAX - 5, SlipType::Normal), slip_out(s.public_key, s.amount + 6, SlipType::Normal)],
+                        &sim.keys[1].1,
+                        ts,
+                    ),
+                    "spv-mint" => raw_tx(TransactionType::SPV, vec![], vec![slip_out(sim.keys[3].0, 1_000_000, SlipType::Normal)], &sim.keys[3].1, ts),
+                    _ => raw_tx(TransactionType::Issuance, vec![], vec![slip_out(sim.keys[3].0, 1_000_000, SlipType::Normal)], &sim.keys[0].1, ts),
+                };
+                let want_ticket = *v == "issuance-later-with-golden-ticket" || !sim.tip().has_golden_ticket;
+                let gt = if want_ticket {
+                    let parent = sim.tip().clone();
+                    Some(gt_tx_for(&sim.node, &parent, sim.keys[1].0, 800 + vi as u64).await)
+                } else {
+                    None
+                };
+                let (co, sr) = sim.honest_step(ts, gt, &[tx]).await;
+                summary.count("scripted", &format!("{}:{}:create-{}:{:?}", name, v, match co { CreateOutcome::Ok => "ok", CreateOutcome::Err(_) => "err", CreateOutcome::Panic(_) => "panic", _ => "-" }, sr.add.clone().map(|c| c.code())));
+                if let CreateOutcome::Panic(p) = &co {
+                    summary.oracle_failure(case, &format!("Block::create panicked on a pooled transaction ({}): {}", v, p), &desc);
+                    break;
+                }
+                if co == CreateOutcome::Ok {
+                    must_reject(&sr, &format!("a block carrying a transaction that creates value ({})", v), case, summary, &desc);
+                }
+                if !c02_oracle(&mut sim, &sr, case, summary, &desc, None) || sr.add == Some(AddClass::OnChain) {
+                    break;
+                }
+                match scripted_more(&mut sim, 20 + vi as u64).await {
+                    Some(sr) => {
+                        if !c02_oracle(&mut sim, &sr, case, summary, &desc, None) || sr.add != Some(AddClass::OnChain) {
+                            summary.oracle_failure(case, &format!("the honest block after the refused one is not accepted: {:?}", sr.add), &desc);
+                            break;
+                        }
+                    }
+                    None => break,
+                }
+            }
+        }
+        // the 700 of key 2 (block 1) is too small to be rebroadcast: block 5 collects it as fees. A transaction
+        // spending it IN block 5 (the first height at which the age rule forbids it) would have it spent and
+        // collected at once: the block must be rejected.
+        "spend-dust-in-collecting-block" => {
+            sim = scripted_prefix_raw(3, 8, ISS, 3, 7, case, summary, &desc).await;
+            if sim.dead {
+                return (sim, desc);
+            }
+            let ts = sim.tip().timestamp + 2 * HEARTBEAT + 1000;
+            let g = sim.chain[0].clone();
+            let s = g.transactions.iter().flat_map(|t| t.to.iter()).find(|s| s.amount == 700).unwrap().clone();
+            let owner = sim.key_index(&s.public_key).unwrap();
+            let tx = make_tx(&[s.clone()], &[(s.public_key, s.amount)], &sim.keys[owner].1, ts);
+            let parent = sim.tip().clone();
+            let gt = if parent.has_golden_ticket { None } else { Some(gt_tx_for(&sim.node, &parent, sim.keys[1].0, 31).await) };
+            let (co, sr) = sim.honest_step(ts, gt, &[tx]).await;
+            summary.count("scripted", &format!("{}:block-{}:create-{}:{:?}", name, parent.id + 1, if co == CreateOutcome::Ok { "ok" } else { "failed" }, sr.add.clone().map(|c| c.code())));
+            if co == CreateOutcome::Ok {
+                must_reject(&sr, "a block spending the 700 output of block 1 in the block that collects it as fees (block 5)", case, summary, &desc);
+            }
+            let mut alive = c02_oracle(&mut sim, &sr, case, summary, &desc, None);
+            // the honest chain goes on and collects it
+            let mut k = 0;
+            while alive && k < 2 {
+                alive = scripted_more(&mut sim, 40 + k).await.map(|sr| c02_oracle(&mut sim, &sr, case, summary, &desc, None)).unwrap_or(false);
+                k += 1;
+            }
+        }
+
+        // an NFT group is created in block 3 and sent on in block 4 (inputs [Bound, Normal, Bound]: the Bound
+        // amounts count as 0 on the input side as well), paying a fee out of the payload; the moved group then
+        // leaves the window twice
+        "nft-send" => {
+            sim = scripted_prefix_raw(3, 8, ISS, 1, 7, case, summary, &desc).await;
+            if sim.dead {
+                return (sim, desc);
+            }
+            let ts = sim.tip().timestamp + 2 * HEARTBEAT + 1000;
+            let s = sim.spendable().into_iter().find(|s| s.public_key == sim.keys[1].0 && s.amount == 333_000).unwrap();
+            let tx = nft_create(&sim, &s, 300_000, 33_000, ts);
+            let parent = sim.tip().clone();
+            let gt = gt_tx_for(&sim.node, &parent, sim.keys[1].0, 13).await;
+            let (_co, sr) = sim.honest_step(ts, Some(gt), &[tx]).await;
+            must_accept(&sr, "a block with an NFT-creating transaction", case, summary, &desc);
+            let mut alive = c02_oracle(&mut sim, &sr, case, summary, &desc, None) && sr.add == Some(AddClass::OnChain);
+            if alive {
+                let nft_block = sim.tip().clone();
+                let t = nft_block.transactions.iter().find(|t| t.transaction_type == TransactionType::Bound).unwrap().clone();
+                let (b1, pl, b2) = (t.to[0].clone(), t.to[1].clone(), t.to[2].clone());
+                let ts2 = sim.tip().timestamp + 2 * HEARTBEAT + 1000;
+                let send = raw_tx(
+                    TransactionType::Bound,
+                    vec![b1.clone(), pl.clone(), b2.clone()],
+                    vec![slip_out(b1.public_key, b1.amount, SlipType::Bound), slip_out(sim.keys[3].0, pl.amount - 2_000, SlipType::Normal), slip_out(b2.public_key, b2.amount, SlipType::Bound)],
+                    &sim.keys[1].1,
+                    ts2,
+                );
+                let mut sp: Vec<_> = sim.spendable().into_iter().filter(|s| s.public_key == sim.keys[0].0).collect();
+                sp.sort_by_key(|s| s.amount);
+                let big = sp.last().unwrap().clone();
+                let pay = make_tx(&[big.clone()], &[(sim.keys[0].0, big.amount - 50_000)], &sim.keys[0].1, ts2);
+                let (_co, sr2) = sim.honest_step(ts2, None, &[pay, send]).await;
+                let carried = sim.tip().transactions.iter().any(|t| t.transaction_type == TransactionType::Bound && t.from.len() == 3);
+                summary.count("scripted", &format!("{}:send-block-{:?}:carried-{}", name, sr2.add.clone().map(|c| c.code()), carried));
+                must_accept(&sr2, "a block with an NFT-sending transaction that pays a fee of 2_000", case, summary, &desc);
+                if !carried {
+                    summary.oracle_failure(case, "coverage: the NFT-sending transaction is not in the accepted block", &desc);
+                }
+                alive = c02_oracle(&mut sim, &sr2, case, summary, &desc, None) && sr2.add == Some(AddClass::OnChain);
+            }
+            let mut k = 0;
+            while alive && k < 9 {
+                alive = scripted_more(&mut sim, k).await.map(|sr| c02_oracle(&mut sim, &sr, case, summary, &desc, None)).unwrap_or(false);
+                k += 1;
+            }
         }
         _ => unreachable!(),
     }
@@ -683,6 +1071,13 @@ async fn main() {
         "collected-output-spent",
         "header-tampered",
         "spend-and-rebroadcast",
+        "stray-bound-output",
+        "spv-spends-bound-slip",
+        "atr-payout-positive",
+        "fee-tx-tampered",
+        "minting-transactions",
+        "spend-dust-in-collecting-block",
+        "nft-send",
     ] {
         let case = cases.len();
         let r = verif_harness::chainsim::futures_catch(std::panic::AssertUnwindSafe(scripted(name, case, &mut summary))).await;
